@@ -2219,7 +2219,7 @@ impl PrivateKey {
         // Reencode r and s. r was not changed from the source signature;
         // s was possibly changed, and we want s in little-endian format.
         let mut nsig = [0u8; 64];
-        nsig[..32].copy_from_slice(&sig[..32]);
+        nsig[..32].copy_from_slice(&tmp[..32]);
         nsig[32..48].copy_from_slice(&sl.to_le_bytes());
         nsig[48..64].copy_from_slice(&sh.to_le_bytes());
 
